@@ -306,6 +306,8 @@ def plist(tok, fields):
 def oracle(line, meta, impl):
     if "CRASH" in impl:
         return ("crash", "implementation crashed or did not terminate: " + impl[-80:])
+    if impl == "MISSING":
+        return ("crash", "no output for this case (the driver died)")
     parts = line.split(" ")
     mode = parts[1]
     if mode == "L":
